@@ -79,6 +79,11 @@ def tlc(module, cfg, workers=8, env=None, timeout=1500, extra=None, heap="8g", d
     if m:
         stats["transitions"] = int(m.group(1))
         stats["states"] = int(m.group(2))
+    m = re.search(r"The number of states generated: (\d+)", out)
+    if m and "states" not in stats:
+        # simulation mode: states visited along the generated traces (not distinct)
+        stats["states"] = int(m.group(1))
+        stats["transitions"] = int(m.group(1))
     m = re.search(r"The depth of the complete state graph search is (\d+)", out)
     if m:
         stats["depth"] = int(m.group(1))
